@@ -34,7 +34,7 @@ WHAT = {
     "C23-a": ("logic/box.go: resize to 0 leaves a phantom box in the counters", ""),
     "C24-a": ("ledger/eval: proposer payout counts the block's fees twice against a drained fee sink", ""),
     "C26-a": ("bookkeeping/block.go: PreCheck skips the upgrade-state check for 'no vote, state copied' headers", ""),
-    "C27-a": ("ledger/eval: a NotParticipating account may be marked absent", ""),
+    "C27-a": ("ledger/eval: a NotParticipating account may be marked absent", "workload mode in which the eligible whale later opts out of participation; tamper variant `absent-nonparticipating-but-silent`; runs with the rewards pool at its minimum (rate 0), where no unrelated money check masks the list check"),
     "C28-a": ("verify/verifiedTxnCache.go: cached verdict reused for the same txid with AuthAddr stripped",
               "new block-level forgery in obs_auth_block.go: look-alike goes through verify.TxnGroup with the ledger's cache, then the forged block is offered to Ledger.Validate"),
     "C29-a": ("catchup/service.go: contents check skipped when the header hash was seen before", "C29's check had no catchup path: it now runs catchupsim as a second engine (the C30 check caught the change from the start)"),
